@@ -341,4 +341,40 @@ theorem stabRun_complete (c : Wire.Circuit) (hgood : c.Good) (har : ArityOk c) (
   rw [List.append_nil] at hs
   exact hs
 
+/-! ### from an arbitrary valid initial tableau (`compile(circuit, initial_state)`) -/
+
+theorem stabRunFrom_refines (c : Wire.Circuit) (hgood : c.Good) (har : ArityOk c) (seq : List Nat) (t0 : Tab)
+    (h0 : TInv (c.ne + c.np) t0) (d : Det) (script : List Bool) (s' : RunState)
+    (h : stabRunFrom t0 c.np d script ((c.sops seq).map toCOp) = some s') :
+    TInv (c.ne + c.np) s'.t ∧ ∀ sc, runSeq (appRaw c.ne c.np) (c.sops seq)
+        (some (gstate t0, feed c.ne c.np (c.sops seq) s'.outs sc)) = some (gstate s'.t, sc) := by
+  unfold stabRunFrom at h
+  rw [h0.n_eq] at h
+  obtain ⟨ht', new, hnew, hrun⟩ := run_refines c.ne c.np d (c.sops seq) (sops_ok c hgood har seq)
+    { t := t0, writes := [], script := script, rand := [], outs := [] } s' h0 h
+  simp only [List.nil_append] at hnew
+  rw [hnew]
+  exact ⟨ht', hrun⟩
+
+theorem stabRunFrom_complete (c : Wire.Circuit) (hgood : c.Good) (har : ArityOk c) (seq : List Nat) (t0 : Tab)
+    (h0 : TInv (c.ne + c.np) t0) (F : Script) (g' : GState)
+    (h : runSeq (appRaw c.ne c.np) (c.sops seq) (some (gstate t0, F)) = some (g', fun _ => [])) :
+    ∃ (script : List Bool) (s' : RunState),
+      stabRunFrom t0 c.np .prob script ((c.sops seq).map toCOp) = some s' ∧ gstate s'.t = g' ∧
+        F = feed c.ne c.np (c.sops seq) s'.outs (fun _ => []) := by
+  obtain ⟨script, t', new, _, hg, hF, hrun⟩ := run_complete c.ne c.np (c.sops seq) (sops_ok c hgood har seq)
+    h0 F (fun _ => []) g' h
+  obtain ⟨w', rd', hs⟩ := hrun [] [] [] []
+  refine ⟨script, ⟨t', w', [], rd', [] ++ new⟩, ?_, hg, by simpa using hF⟩
+  unfold stabRunFrom
+  rw [List.append_nil] at hs
+  rw [h0.n_eq]
+  exact hs
+
+/-- the state of the semantics described by a valid tableau and outcome streams -/
+noncomputable def GSt.ofTab (ne np : Nat) (t0 : Tab) (h0 : TInv (ne + np) t0) (sc : Script) : GSt ne np :=
+  ⟨some (gstate t0, sc), fun g sc' h => by
+    simp only [Option.some.injEq, Prod.mk.injEq] at h
+    rw [← h.1]; exact h0.isTab⟩
+
 end Graphiq.Commute
